@@ -18,14 +18,14 @@ def nested_expression_faults(v, tier):
     if len(cases) < 2000:
         raise Infra("ExprFaults exported only %d cases" % len(cases))
     exe = vlib.build_harness("exprfault_replay", "asan", extra_flags=["-std=c++14"])
-    lines = ["%d %s %s %d %d" % (i, e["e"], e["f"], e["d"], e["k"]) for i, e in enumerate(cases)]
+    lines = ["%d %s %s %d %d %d" % (i, e["e"], e["f"], e["d"], e["k"], e["w"]) for i, e in enumerate(cases)]
     start = 0; nfired = 0; guard = 0; seen = {}
     def report(i, what, extra=""):
         e = cases[i]
-        key = "nested/%s/%s/%s" % (e["e"], e["f"], what.split(":")[0])
+        key = "nested/%s/%s/%s%s" % (e["e"], e["f"], what.split(":")[0], ["", "/warm-cache", "/full-cache"][e["w"]])
         seen[key] = seen.get(key, 0) + 1
         if seen[key] <= 2:
-            v.violation(key, "statement form %s with right-hand side %s, dimension %d, allocation #%d failing: %s %s" % (e["f"], e["e"], e["d"], e["k"], what, extra), {"exprfault_case": e})
+            v.violation(key, "statement form %s with right-hand side %s, dimension %d, cache %s, allocation #%d failing: %s %s" % (e["f"], e["e"], e["d"], ["cold", "one spare block of the target's dimension", "target's dimension full"][e["w"]], e["k"], what, extra), {"exprfault_case": e})
     while start < len(lines) and guard < 12:      # (every std::terminate / crash costs a restart: a dozen are evidence enough)
         guard += 1
         rc, out, err = vlib.run_lines(exe, "\n".join(lines[start:]) + "\n", timeout=900, env={"ASAN_OPTIONS": "detect_leaks=0:abort_on_error=0:allocator_may_return_null=1"})
